@@ -10,98 +10,161 @@ Definition mgroup (fm : fmap) (f p : str) : option vmap :=
 Definition group_val (fm : fmap) (f p : str) : vmap :=
   match mgroup fm f p with Some vm => vm | None => [] end.
 
-Definition mget (fm : fmap) (f p k : str) : option (str * str) := alookup k (group_val fm f p).
+Definition mget (fm : fmap) (f p k : str) : option mval := alookup k (group_val fm f p).
+
+Lemma mget_fm_get fm f p k : mget fm f p k = fm_get fm f p k.
+Proof.
+  unfold mget, group_val, mgroup, fm_get. destruct (alookup f fm) as [pm|]; [|reflexivity].
+  destruct (alookup p pm); reflexivity.
+Qed.
 
 Lemma oget_group fm f p : oget p (oget f fm) = group_val fm f p.
 Proof. unfold oget, group_val, mgroup. destruct (alookup f fm) eqn:E; reflexivity. Qed.
 
+Lemma mgroup_aset2 fm fl inP X f p :
+  mgroup (aset fl (aset inP X (oget fl fm)) fm) f p =
+  if str_eqb f fl && str_eqb p inP then Some X else mgroup fm f p.
+Proof.
+  unfold mgroup. destruct (str_eqb_spec f fl) as [->|Hf].
+  - rewrite alookup_aset_same. destruct (str_eqb_spec p inP) as [->|Hp]; cbn [andb].
+    + now rewrite alookup_aset_same.
+    + rewrite alookup_aset_other by assumption. unfold oget. destruct (alookup fl fm); reflexivity.
+  - cbn [andb]. now rewrite alookup_aset_other.
+Qed.
+
 Lemma mgroup_fm_add fm inP inV outP outV fl f p :
   mgroup (fm_add fm inP inV outP outV fl true) f p =
   if str_eqb f fl && str_eqb p inP
-  then Some (match outV with
-             | Some (c :: w) => aset inV (outP, c :: w) (group_val fm fl inP)
-             | _ => aremove inV (group_val fm fl inP)
-             end)
+  then Some (aset inV (outP, out_version outV) (group_val fm fl inP))
   else mgroup fm f p.
+Proof. unfold fm_add. cbn [negb andb]. rewrite oget_group. apply mgroup_aset2. Qed.
+
+Lemma mget_fm_add fm inP inV outP outV fl f p k :
+  mget (fm_add fm inP inV outP outV fl true) f p k =
+  if str_eqb f fl && str_eqb p inP && str_eqb k inV then Some (outP, out_version outV) else mget fm f p k.
 Proof.
-  unfold fm_add. cbn [negb andb]. rewrite oget_group.
-  assert (G : forall X, mgroup (aset fl (aset inP X (oget fl fm)) fm) f p =
-                        if str_eqb f fl && str_eqb p inP then Some X else mgroup fm f p).
-  { intros X. unfold mgroup. destruct (str_eqb_spec f fl) as [->|Hf].
-    - rewrite alookup_aset_same. destruct (str_eqb_spec p inP) as [->|Hp]; cbn [andb].
-      + now rewrite alookup_aset_same.
-      + rewrite alookup_aset_other by assumption. unfold oget. destruct (alookup fl fm); reflexivity.
-    - cbn [andb]. now rewrite alookup_aset_other. }
-  destruct outV as [[|c w]|]; apply G.
+  unfold mget, group_val at 1. rewrite mgroup_fm_add.
+  destruct (str_eqb_spec f fl) as [->|Hf]; cbn [andb]; [|reflexivity].
+  destruct (str_eqb_spec p inP) as [->|Hp]; cbn [andb]; [|reflexivity].
+  destruct (str_eqb_spec k inV) as [->|Hk].
+  - now rewrite alookup_aset_same.
+  - now rewrite alookup_aset_other.
 Qed.
 
-Lemma m_apply1_mgroup m p v fl :
-  m_apply1 m p v fl =
-  match mgroup (mp_map m) fl p with
-  | None => (p, Some v)
-  | Some [] => (p, None)
-  | Some vm => match alookup v vm with
-               | Some (q, w) => (q, Some w)
-               | None => match alookup s_any vm with
-                         | Some (q, w) => (q, Some w)
-                         | None => (p, Some v)
-                         end
-               end
+Lemma m_exists1_mget m p v f :
+  m_exists1 m p v f = match mget (mp_map m) f p v with Some _ => true | None => false end.
+Proof.
+  unfold m_exists1, mget, group_val, mgroup, amem.
+  destruct (alookup f (mp_map m)) as [pm|]; [|reflexivity]. destruct (alookup p pm); reflexivity.
+Qed.
+
+(* ------------------------------------------------------------------ _apply and apply through lookups *)
+
+(* the row of one flavor level that answers for (p, v) *)
+Definition fm_find (fm : fmap) (f p v : str) : option mval :=
+  match mget fm f p v with Some r => Some r | None => mget fm f p s_any end.
+
+(* the row that answers for (p, v) when the running flavor is fl *)
+Definition fm_says (fm : fmap) (fl p v : str) : option mval :=
+  match fm_find fm fl p v with
+  | Some r => Some r
+  | None => if str_eqb fl s_generic then None else fm_find fm s_generic p v
   end.
-Proof. unfold m_apply1, mgroup. destruct (alookup fl (mp_map m)); reflexivity. Qed.
 
-Lemma vm_empty (vm : vmap) : (forall k, alookup k vm = None) -> vm = [].
+Lemma m_apply1_find m p v f :
+  m_apply1 m p v f = match fm_find (mp_map m) f p v with Some r => r | None => (p, Some v) end.
 Proof.
-  destruct vm as [|[k x] vm]; auto. intros H. specialize (H k). cbn [alookup] in H.
-  rewrite str_eqb_refl in H. discriminate.
+  unfold m_apply1, fm_find, mget, group_val, mgroup.
+  destruct (alookup f (mp_map m)) as [pm|]; [|reflexivity].
+  destruct (alookup p pm) as [vm|]; [|reflexivity].
+  destruct (alookup v vm); [reflexivity|]. destruct (alookup s_any vm); reflexivity.
 Qed.
+
+Lemma m_apply_says m p v fl :
+  m_apply m p v fl = match fm_says (mp_map m) fl p v with Some r => r | None => (p, Some v) end.
+Proof.
+  unfold m_apply, fm_says. rewrite !m_exists1_mget, !m_apply1_find.
+  destruct (str_eqb_spec fl s_generic) as [->|Hg]; cbn [negb andb].
+  - destruct (fm_find (mp_map m) s_generic p v); reflexivity.
+  - unfold fm_find at 2 3.
+    destruct (mget (mp_map m) fl p v); cbn [orb negb]; [reflexivity|].
+    destruct (mget (mp_map m) fl p s_any); reflexivity.
+Qed.
+
+(* tables that answer every lookup alike are applied alike *)
+Definition fm_equiv (a b : fmap) : Prop := forall f p k, fm_get a f p k = fm_get b f p k.
+
+Lemma fm_equiv_mget a b : fm_equiv a b -> forall f p k, mget a f p k = mget b f p k.
+Proof. intros H f p k. rewrite !mget_fm_get. apply H. Qed.
+
+Lemma fm_says_equiv a b fl p v : fm_equiv a b -> fm_says a fl p v = fm_says b fl p v.
+Proof. intros H. unfold fm_says, fm_find. now rewrite !(fm_equiv_mget _ _ H). Qed.
+
+Lemma m_apply_equiv a b p v fl : fm_equiv (mp_map a) (mp_map b) -> m_apply a p v fl = m_apply b p v fl.
+Proof. intros H. rewrite !m_apply_says. now rewrite (fm_says_equiv _ _ _ _ _ H). Qed.
+
+Lemma remap_equiv fx a b fl ds : fm_equiv (mp_map a) (mp_map b) -> remap fx a fl ds = remap fx b fl ds.
+Proof.
+  intros H. unfold remap. induction ds as [|d ds IH]; cbn [flat_map]; [reflexivity|].
+  rewrite IH. unfold remap_dep. now rewrite (m_apply_equiv _ _ _ _ _ H).
+Qed.
+
+Lemma fm_equiv_refl a : fm_equiv a a.
+Proof. intros f p k. reflexivity. Qed.
+
+Lemma fm_equiv_sym a b : fm_equiv a b -> fm_equiv b a.
+Proof. intros H f p k. symmetry. apply H. Qed.
+
+Lemma fm_equiv_trans a b c : fm_equiv a b -> fm_equiv b c -> fm_equiv a c.
+Proof. intros H1 H2 f p k. now rewrite H1. Qed.
 
 (* ------------------------------------------------------------------ rows *)
 
-Definition lastval (rows : list row) (f p k : str) : option (str * str) :=
-  match last_row rows f p k with
-  | Some r => match verdict_of r with Replace q w => Some (q, w) | Delete => None end
-  | None => None
-  end.
+Definition row_val (r : row) : mval :=
+  (match r_outP r with Some (a :: b) => a :: b | _ => r_inP r end, out_version (r_outV r)).
+
+Definition val_verdict (x : mval) : verdict :=
+  match snd x with Some w => Replace (fst x) w | None => Delete end.
+
+Lemma verdict_row_val r : verdict_of r = val_verdict (row_val r).
+Proof. unfold verdict_of, val_verdict, row_val. cbn [fst snd]. now destruct (r_outV r) as [[|c w]|]. Qed.
+
+Definition lastval (rows : list row) (f p k : str) : option mval :=
+  match last_row rows f p k with Some r => Some (row_val r) | None => None end.
 
 Lemma last_row_snoc rows r f p k :
   last_row (rows ++ [r]) f p k = if names f p k r then Some r else last_row rows f p k.
 Proof. unfold last_row. rewrite rev_unit. reflexivity. Qed.
 
-Lemma group_keys_snoc rows r f p :
-  group_keys (rows ++ [r]) f p = group_keys rows f p ++ (if in_group f p r then [r_inV r] else []).
-Proof.
-  unfold group_keys. rewrite filter_app, map_app. cbn [filter]. now destruct (in_group f p r).
-Qed.
+Lemma find_app {A} (g : A -> bool) a b :
+  find g (a ++ b) = match find g a with Some x => Some x | None => find g b end.
+Proof. induction a as [|x a IH]; cbn [app find]; [reflexivity|]. now destruct (g x). Qed.
+
+Lemma last_row_app a b f p k :
+  last_row (a ++ b) f p k = match last_row b f p k with Some r => Some r | None => last_row a f p k end.
+Proof. unfold last_row. rewrite rev_app_distr. apply find_app. Qed.
+
+Lemma lastval_app a b f p k :
+  lastval (a ++ b) f p k = match lastval b f p k with Some x => Some x | None => lastval a f p k end.
+Proof. unfold lastval. rewrite last_row_app. now destruct (last_row b f p k). Qed.
 
 Lemma m_of_rows_snoc rows r : m_of_rows (rows ++ [r]) = add_row (m_of_rows rows) r.
 Proof. unfold m_of_rows. now rewrite fold_left_app. Qed.
 
-Lemma last_row_None rows f p k : last_row rows f p k = None <-> ~ In k (group_keys rows f p).
-Proof.
-  unfold last_row, group_keys. split.
-  - intros H Hin. apply in_map_iff in Hin. destruct Hin as [r [<- Hr]]. apply filter_In in Hr.
-    destruct Hr as [Hr Hg]. pose proof (find_none _ _ H r (proj1 (in_rev _ _) Hr)) as Hn.
-    unfold names in Hn. rewrite Hg, str_eqb_refl in Hn. discriminate.
-  - intros H. destruct (find (names f p k) (rev rows)) as [r|] eqn:E; [|reflexivity].
-    exfalso. apply find_some in E. destruct E as [Hin Hn]. apply H.
-    unfold names in Hn. apply andb_true_iff in Hn. destruct Hn as [Hg Hk].
-    apply str_eqb_eq in Hk. subst k. apply in_map. apply filter_In. split; [now apply in_rev|assumption].
-Qed.
-
 Lemma last_row_names rows f p k r : last_row rows f p k = Some r -> names f p k r = true.
 Proof. unfold last_row. intros H. now apply find_some in H. Qed.
 
-Definition Inv (rows : list row) (fm : fmap) : Prop :=
-  forall f p, (mgroup fm f p = None <-> group_keys rows f p = []) /\
-              forall k, mget fm f p k = lastval rows f p k.
+Lemma last_row_In rows f p k r : last_row rows f p k = Some r -> In r rows.
+Proof. unfold last_row. intros H. apply find_some in H. apply in_rev. apply H. Qed.
+
+Lemma last_row_None_In rows f p k r : last_row rows f p k = None -> In r rows -> names f p k r = false.
+Proof. unfold last_row. intros H Hin. apply (find_none _ _ H). now apply in_rev in Hin. Qed.
 
 Lemma mp_map_add_row m r :
   mp_map (add_row m r) =
   if is_noreinstall (r_outV r) then mp_map m
-  else fm_add (mp_map m) (r_inP r) (r_inV r)
-         (match r_outP r with Some (a :: b) => a :: b | _ => r_inP r end) (r_outV r) (r_fl r) true.
-Proof. unfold add_row, m_add. now destruct (is_noreinstall (r_outV r)). Qed.
+  else fm_add (mp_map m) (r_inP r) (r_inV r) (fst (row_val r)) (r_outV r) (r_fl r) true.
+Proof. unfold add_row, add_row_ow, m_add, row_val. cbn [fst]. now destruct (is_noreinstall (r_outV r)). Qed.
 
 Lemma in_group_eq f p r : in_group f p r = true ->
   r_fl r = f /\ r_inP r = p /\ is_noreinstall (r_outV r) = false.
@@ -110,174 +173,93 @@ Proof.
   apply str_eqb_eq in H, H1. now apply negb_true_iff in H0.
 Qed.
 
-Lemma Inv_m_of_rows rows : Inv rows (mp_map (m_of_rows rows)).
+Lemma names_spec f p k r :
+  names f p k r = str_eqb f (r_fl r) && str_eqb p (r_inP r) && str_eqb k (r_inV r) && negb (is_noreinstall (r_outV r)).
 Proof.
-  induction rows as [|r rows IH] using rev_ind.
-  - intros f p. split; [split; reflexivity|]. intros k. reflexivity.
-  - rewrite m_of_rows_snoc, mp_map_add_row.
-    destruct (is_noreinstall (r_outV r)) eqn:En.
-    + intros f p. destruct (IH f p) as [I1 I2].
-      assert (Hg : in_group f p r = false) by (unfold in_group; rewrite En; cbn [negb]; now rewrite andb_false_r).
-      rewrite group_keys_snoc, Hg, app_nil_r. split; auto.
-      intros k. unfold lastval. rewrite last_row_snoc. unfold names. rewrite Hg. cbn [andb]. apply I2.
-    + intros f p. destruct (IH f p) as [I1 I2].
-      unfold mget, group_val. rewrite mgroup_fm_add.
-      rewrite group_keys_snoc. unfold lastval. setoid_rewrite last_row_snoc.
-      destruct (str_eqb_spec f (r_fl r)) as [->|Hf]; cbn [andb].
-      * destruct (str_eqb_spec p (r_inP r)) as [->|Hp].
-        -- assert (Hg : in_group (r_fl r) (r_inP r) r = true)
-             by (unfold in_group; now rewrite !str_eqb_refl, En).
-           rewrite Hg. split.
-           ++ split; [discriminate|]. intros H. now apply app_eq_nil in H.
-           ++ intros k. unfold names. rewrite Hg. cbn [andb].
-              destruct (IH (r_fl r) (r_inP r)) as [_ J2]. unfold mget in J2.
-              destruct (str_eqb_spec (r_inV r) k) as [<-|Hk].
-              ** unfold verdict_of. destruct (r_outV r) as [[|c w]|].
-                 --- now rewrite alookup_aremove_same.
-                 --- now rewrite alookup_aset_same.
-                 --- now rewrite alookup_aremove_same.
-              ** fold (lastval rows (r_fl r) (r_inP r) k). rewrite <- J2.
-                 destruct (r_outV r) as [[|c w]|].
-                 --- apply alookup_aremove_other. congruence.
-                 --- apply alookup_aset_other. congruence.
-                 --- apply alookup_aremove_other. congruence.
-        -- assert (Hg : in_group (r_fl r) p r = false).
-           { unfold in_group. destruct (str_eqb_spec (r_inP r) p); [congruence|]. now rewrite andb_false_r. }
-           rewrite Hg, app_nil_r. split; auto.
-           intros k. unfold names. rewrite Hg. cbn [andb]. apply I2.
-      * assert (Hg : in_group f p r = false).
-        { unfold in_group. destruct (str_eqb_spec (r_fl r) f); [congruence|]. reflexivity. }
-        rewrite Hg, app_nil_r. split; auto.
-        intros k. unfold names. rewrite Hg. cbn [andb]. apply I2.
+  unfold names, in_group. rewrite (str_eqb_sym (r_fl r)), (str_eqb_sym (r_inP r)), (str_eqb_sym (r_inV r)).
+  destruct (str_eqb f (r_fl r)), (str_eqb p (r_inP r)), (str_eqb k (r_inV r)), (is_noreinstall (r_outV r)); reflexivity.
 Qed.
 
-(* ------------------------------------------------------------------ one flavor level *)
+(* the dictionaries built by add hold, under every key, the value of the last row that names it *)
+Lemma mget_m_of_rows rows f p k : mget (mp_map (m_of_rows rows)) f p k = lastval rows f p k.
+Proof.
+  induction rows as [|r rows IH] using rev_ind; [reflexivity|].
+  rewrite m_of_rows_snoc, mp_map_add_row. unfold lastval. rewrite last_row_snoc, names_spec.
+  destruct (is_noreinstall (r_outV r)) eqn:En.
+  - cbn [negb]. rewrite andb_false_r. exact IH.
+  - cbn [negb]. rewrite andb_true_r, mget_fm_add.
+    destruct (str_eqb f (r_fl r) && str_eqb p (r_inP r) && str_eqb k (r_inV r)); [|exact IH].
+    unfold row_val. reflexivity.
+Qed.
 
-Definition result_of (x : option verdict) (p v : str) : str * option str :=
-  match x with
-  | Some (Replace q w) => (q, Some w)
-  | Some Delete => (p, None)
-  | None => (p, Some v)
+(* ------------------------------------------------------------------ one flavor level, both levels *)
+
+Lemma fm_find_rows rows f p v :
+  option_map val_verdict (fm_find (mp_map (m_of_rows rows)) f p v) = level_says rows f p v.
+Proof.
+  unfold fm_find, level_says. rewrite !mget_m_of_rows. unfold lastval.
+  destruct (last_row rows f p v) as [r|]; cbn [option_map]; [now rewrite verdict_row_val|].
+  destruct (last_row rows f p s_any) as [r|]; cbn [option_map]; [now rewrite verdict_row_val|reflexivity].
+Qed.
+
+Lemma fm_says_rows rows fl p v :
+  option_map val_verdict (fm_says (mp_map (m_of_rows rows)) fl p v) = says rows fl p v.
+Proof.
+  unfold fm_says, says. rewrite <- !fm_find_rows.
+  destruct (fm_find (mp_map (m_of_rows rows)) fl p v); cbn [option_map]; [reflexivity|].
+  destruct (str_eqb fl s_generic); reflexivity.
+Qed.
+
+Lemma remap_dep_verdict fx m fl d :
+  remap_dep fx m fl d =
+  match option_map val_verdict (fm_says (mp_map m) fl (d_product d) (d_version d)) with
+  | None => [d]
+  | Some Delete => []
+  | Some (Replace q w) =>
+      if str_eqb q (d_product d) && str_eqb w (d_version d) then [d]
+      else [new_dep fx q w None None None None false false []]
   end.
-
-Lemma key_deleted_lastval rows f p k :
-  key_deleted rows f p k = false -> In k (group_keys rows f p) ->
-  exists r q w, last_row rows f p k = Some r /\ verdict_of r = Replace q w /\ lastval rows f p k = Some (q, w).
 Proof.
-  intros Hd Hin. unfold key_deleted, lastval in *.
-  destruct (last_row rows f p k) as [r|] eqn:E.
-  - destruct (verdict_of r) as [q w|] eqn:Ev; [|discriminate]. exists r, q, w. auto.
-  - exfalso. now apply last_row_None in E.
-Qed.
-
-Lemma level_code rows f p v :
-  group_ok rows f p = true ->
-  m_apply1 (m_of_rows rows) p v f = result_of (level_says rows f p v) p v.
-Proof.
-  intros Hok. rewrite m_apply1_mgroup.
-  destruct (Inv_m_of_rows rows f p) as [[I1a I1b] I2]. unfold mget, group_val in I2.
-  unfold group_ok in Hok. apply orb_true_iff in Hok.
-  assert (Hnone : forall k, ~ In k (group_keys rows f p) -> lastval rows f p k = None).
-  { intros k Hk. unfold lastval. apply last_row_None in Hk. now rewrite Hk. }
-  destruct Hok as [Hlive|Hdel].
-  - (* no key ends deleted *)
-    rewrite forallb_forall in Hlive.
-    assert (Hl : forall k, lastval rows f p k = None -> last_row rows f p k = None).
-    { intros k Hk. destruct (in_dec str_eq_dec k (group_keys rows f p)) as [Hin|Hin].
-      - specialize (Hlive k Hin). apply negb_true_iff in Hlive.
-        destruct (key_deleted_lastval _ _ _ _ Hlive Hin) as [r [q [w [_ [_ E]]]]]. congruence.
-      - now apply last_row_None. }
-    destruct (mgroup (mp_map (m_of_rows rows)) f p) as [vm|] eqn:Eg.
-    + assert (Hne : vm <> []).
-      { intros ->. destruct (group_keys rows f p) as [|k0 ks] eqn:Ek.
-        - specialize (I1b eq_refl). discriminate.
-        - assert (Hin : In k0 (k0 :: ks)) by now left.
-          pose proof (Hlive k0 Hin) as Hl0. apply negb_true_iff in Hl0.
-          assert (Hin' : In k0 (group_keys rows f p)) by (rewrite Ek; now left).
-          destruct (key_deleted_lastval _ _ _ _ Hl0 Hin') as [r [q [w [_ [_ E]]]]].
-          rewrite <- I2 in E. discriminate. }
-      destruct vm as [|e vm]; [congruence|]. rewrite !I2. unfold level_says.
-      unfold lastval at 1. destruct (last_row rows f p v) as [r|] eqn:E1.
-      * pose proof (last_row_names _ _ _ _ _ E1) as Hn.
-        assert (Hin : In v (group_keys rows f p)).
-        { destruct (in_dec str_eq_dec v (group_keys rows f p)); auto.
-          apply last_row_None in n. congruence. }
-        specialize (Hlive v Hin). apply negb_true_iff in Hlive. unfold key_deleted in Hlive.
-        rewrite E1 in Hlive. destruct (verdict_of r); [reflexivity|discriminate].
-      * unfold lastval. destruct (last_row rows f p s_any) as [r|] eqn:E2; [|reflexivity].
-        assert (Hin : In s_any (group_keys rows f p)).
-        { destruct (in_dec str_eq_dec s_any (group_keys rows f p)); auto.
-          apply last_row_None in n. congruence. }
-        specialize (Hlive s_any Hin). apply negb_true_iff in Hlive. unfold key_deleted in Hlive.
-        rewrite E2 in Hlive. destruct (verdict_of r); [reflexivity|discriminate].
-    + assert (Ek : group_keys rows f p = []) by now apply I1a.
-      unfold level_says.
-      assert (H1 : last_row rows f p v = None) by (apply last_row_None; now rewrite Ek).
-      assert (H2 : last_row rows f p s_any = None) by (apply last_row_None; now rewrite Ek).
-      now rewrite H1, H2.
-  - (* every key ends deleted and the any key is one of them *)
-    apply andb_true_iff in Hdel. destruct Hdel as [Hall Hany].
-    rewrite forallb_forall in Hall. apply mem_str_In in Hany.
-    assert (Hdelv : forall k r, last_row rows f p k = Some r -> verdict_of r = Delete).
-    { intros k r E. assert (Hin : In k (group_keys rows f p)).
-      { destruct (in_dec str_eq_dec k (group_keys rows f p)); auto. apply last_row_None in n. congruence. }
-      specialize (Hall k Hin). unfold key_deleted in Hall. rewrite E in Hall.
-      destruct (verdict_of r); [discriminate|reflexivity]. }
-    assert (Hl : forall k, lastval rows f p k = None).
-    { intros k. unfold lastval. destruct (last_row rows f p k) as [r|] eqn:E; [|reflexivity].
-      now rewrite (Hdelv _ _ E). }
-    destruct (mgroup (mp_map (m_of_rows rows)) f p) as [vm|] eqn:Eg.
-    + assert (vm = []) by (apply vm_empty; intros k; rewrite I2; apply Hl). subst vm.
-      unfold level_says. destruct (last_row rows f p v) as [r|] eqn:E1.
-      * now rewrite (Hdelv _ _ E1).
-      * destruct (last_row rows f p s_any) as [r|] eqn:E2.
-        -- now rewrite (Hdelv _ _ E2).
-        -- apply last_row_None in E2. contradiction.
-    + assert (Ek : group_keys rows f p = []) by now apply I1a. rewrite Ek in Hany. destruct Hany.
-Qed.
-
-(* ------------------------------------------------------------------ apply with the generic fall-back *)
-
-Lemma same_pv_result x p v : same_pv (result_of x p v) p v =
-  match x with None => true | Some y => same_verdict (Some y) p v end.
-Proof.
-  destruct x as [[q w|]|]; cbn [result_of same_pv same_verdict]; auto.
+  unfold remap_dep. rewrite m_apply_says.
+  destruct (fm_says (mp_map m) fl (d_product d) (d_version d)) as [[q [w|]]|]; cbn [option_map val_verdict fst snd];
+    try reflexivity.
   now rewrite !str_eqb_refl.
-Qed.
-
-Lemma apply_says rows fl p v :
-  entry_ok rows fl p v = true ->
-  m_apply (m_of_rows rows) p v fl = result_of (says rows fl p v) p v.
-Proof.
-  unfold entry_ok. intros H. apply andb_true_iff in H. destruct H as [H Hsh].
-  apply andb_true_iff in H. destruct H as [Hok1 Hok2]. apply negb_true_iff in Hsh.
-  unfold m_apply. rewrite (level_code _ _ _ _ Hok1), (level_code _ _ _ _ Hok2).
-  rewrite same_pv_result. unfold says, shadowed_identity in *.
-  destruct (str_eqb fl s_generic) eqn:Eg; cbn [negb andb] in *.
-  - destruct (level_says rows fl p v); reflexivity.
-  - destruct (level_says rows fl p v) as [x|] eqn:E1; [|reflexivity].
-    destruct (same_verdict (Some x) p v) eqn:Es; [|reflexivity].
-    cbn [andb] in Hsh.
-    destruct x as [q w|]; cbn [same_verdict] in Es; [|discriminate].
-    apply andb_true_iff in Es. destruct Es as [Eq Ew]. apply str_eqb_eq in Eq, Ew. subst q w.
-    destruct (level_says rows s_generic p v) as [y|] eqn:E2; [|reflexivity].
-    apply negb_false_iff in Hsh. destruct y as [q w|]; cbn [same_verdict] in Hsh; [|discriminate].
-    apply andb_true_iff in Hsh. destruct Hsh as [Eq Ew]. apply str_eqb_eq in Eq, Ew. now subst q w.
 Qed.
 
 Lemma remap_dep_says rows fl d :
-  entry_ok rows fl (d_product d) (d_version d) = true ->
   remap_dep true (m_of_rows rows) fl d = spec_remap_dep rows fl d.
+Proof. rewrite remap_dep_verdict, fm_says_rows. reflexivity. Qed.
+
+Lemma remap_says rows fl ds : remap true (m_of_rows rows) fl ds = spec_remap rows fl ds.
 Proof.
-  intros H. unfold remap_dep, spec_remap_dep. rewrite (apply_says _ _ _ _ H).
-  destruct (says rows fl (d_product d) (d_version d)) as [[q w|]|]; cbn [result_of]; try reflexivity.
-  now rewrite !str_eqb_refl.
+  unfold remap, spec_remap. induction ds as [|d ds IH]; cbn [flat_map]; [reflexivity|].
+  now rewrite remap_dep_says, IH.
 Qed.
 
-Lemma remap_says rows fl ds :
-  (forall d, In d ds -> entry_ok rows fl (d_product d) (d_version d) = true) ->
-  remap true (m_of_rows rows) fl ds = spec_remap rows fl ds.
+(* the apply of the table, entry by entry *)
+Lemma apply_says rows fl p v :
+  m_apply (m_of_rows rows) p v fl =
+  match fm_says (mp_map (m_of_rows rows)) fl p v with Some r => r | None => (p, Some v) end.
+Proof. apply m_apply_says. Qed.
+
+Lemma apply_untouched rows fl p v : says rows fl p v = None -> m_apply (m_of_rows rows) p v fl = (p, Some v).
 Proof.
-  unfold remap, spec_remap. induction ds as [|d ds IH]; intros H; cbn [flat_map]; [reflexivity|].
-  rewrite remap_dep_says by (apply H; now left). f_equal. apply IH. intros; apply H; now right.
+  intros H. rewrite m_apply_says. rewrite <- fm_says_rows in H.
+  destruct (fm_says (mp_map (m_of_rows rows)) fl p v); [discriminate|reflexivity].
+Qed.
+
+Lemma apply_replaced rows fl p v q w :
+  says rows fl p v = Some (Replace q w) -> m_apply (m_of_rows rows) p v fl = (q, Some w).
+Proof.
+  intros H. rewrite m_apply_says. rewrite <- fm_says_rows in H.
+  destruct (fm_says (mp_map (m_of_rows rows)) fl p v) as [[q' [w'|]]|]; cbn [option_map val_verdict fst snd] in H;
+    congruence.
+Qed.
+
+Lemma apply_deleted rows fl p v :
+  says rows fl p v = Some Delete -> snd (m_apply (m_of_rows rows) p v fl) = None.
+Proof.
+  intros H. rewrite m_apply_says. rewrite <- fm_says_rows in H.
+  destruct (fm_says (mp_map (m_of_rows rows)) fl p v) as [[q' [w'|]]|]; cbn [option_map val_verdict fst snd] in H;
+    try discriminate. reflexivity.
 Qed.
